@@ -62,6 +62,9 @@ type Job struct {
 	// mode 9 (family): runtime i is the root template (Parent -1) or a copy of runtime Parent (< i), made
 	// right after the parent received its own settings; every member then receives its own settings
 	Family []Member `json:"family,omitempty"`
+	// what the template itself runs after it has been copied (origin 1: concurrently with its copies,
+	// origin 2: after them), before it is probed
+	TProgs []string `json:"tprogs,omitempty"`
 }
 
 // per-Otto settings of one member of a family.  Interrupt is a field of the
@@ -166,6 +169,13 @@ function callBound(tag) {
   for (var i = 0; i < T.bf.length; i++) out.push(String(T.bf[i](tag, ob, 'x' + tag)) + '/' + String(T.bf[i]('y' + tag)));
   return out.join('|');
 }
+// the 'caller' accessor of functions: of one made by the setup (before any Copy) and of one made now
+function callerCensus() {
+  var a = Object.getOwnPropertyDescriptor(note, 'caller'), b = Object.getOwnPropertyDescriptor(function () {}, 'caller');
+  function names(d) { return d && d.get ? Object.getOwnPropertyNames(d.get).sort().join('.') : String(d && d.get); }
+  function who() { return who.caller === callerCensus ? 'ok' : String(who.caller && who.caller.name); }
+  return names(a) + '~' + names(b) + '~' + who();
+}
 var dbgSeen = 'unset';
 function depthProbe() { return (function d(n) { try { return d(n + 1); } catch (e) { return n; } })(0); }
 function traceProbe() { function t(n) { if (n === 0) throw new Error('tp'); t(n - 1); } try { t(30); } catch (e) { return e.stack.split('\n').length; } }
@@ -207,7 +217,7 @@ function note(x) { log.push(x); if (log.length > 40) log.shift(); return log.len
 `
 
 // what the template itself answers after its copies have run
-const probeJS = `census() + '|' + peeks() + '|' + dig(T) + '|' + glob + '|' + log.join() + '|' + [1,2].tsum() + '|' + ({}).hid + '|' + 'x'.shout() + '|' + T.counter.get() + '|' + T.margs.get() + '|' + keysIn(T.o3) + '|' + typeof Math.max(1,2) + '|' + [3,1,2].sort().join()`
+const probeJS = `callerCensus() + '|' + census() + '|' + peeks() + '|' + dig(T) + '|' + glob + '|' + log.join() + '|' + [1,2].tsum() + '|' + ({}).hid + '|' + 'x'.shout() + '|' + T.counter.get() + '|' + T.margs.get() + '|' + keysIn(T.o3) + '|' + typeof Math.max(1,2) + '|' + [3,1,2].sort().join()`
 
 type gen struct {
 	r      *rand.Rand
@@ -562,6 +572,60 @@ func (g *gen) shaped(R int) string {
 	}
 }
 
+
+// programs that DEFINE new functions and objects (in a copy: after Copy()) and then use the services the
+// runtime provides through them: caller, arguments/callee, stack traces, eval, Function, bind, accessors
+func (g *gen) postcopy(R int) string {
+	k := g.r.Intn(6)
+	switch g.r.Intn(12) {
+	case 0, 1:
+		return fmt.Sprintf(`function pcOuter%d() { return pcInner%d(); } function pcInner%d() { var c = pcInner%d.caller; return (c === pcOuter%d) + ':' + (c ? c.name : c); } pcOuter%d() + '|' + (function viaAnon() { return pcInner%d(); })() + '|' + pcInner%d()`, R, R, R, R, R, R, R, R)
+	case 2:
+		return fmt.Sprintf(`function pcF%d() {} var g = Object.getOwnPropertyDescriptor(pcF%d, 'caller').get; g['mk%d_%d'] = %d; Object.getOwnPropertyNames(g).sort().join() + ':' + typeof g + ':' + callerCensus()`, R, R, R, k, R)
+	case 3:
+		return fmt.Sprintf(`function pcA%d(a, b) { arguments[0] = %d; b = 'B'; return a + ':' + arguments[1] + ':' + arguments.length + ':' + (arguments.callee === pcA%d) + ':' + pcA%d.length + ':' + (pcA%d.caller === pcCallA%d); } function pcCallA%d() { return pcA%d(1, 2, 3); } pcCallA%d()`, R, R, R, R, R, R, R, R, R)
+	case 4:
+		return fmt.Sprintf(`function pcT%d(n) { if (!n) throw new Error('pc%d'); return pcT%d(n - 1); } try { pcT%d(%d); } catch (e) { e.stack; }`, R, R, R, R, k+1)
+	case 5:
+		return fmt.Sprintf(`eval('function pcE%d(x) { return pcE%d.caller === pcCallE%d ? x * 2 : String(pcE%d.caller); }'); function pcCallE%d() { return pcE%d(%d); } pcCallE%d() + ':' + eval('(function () { return typeof pcE%d.caller; })()')`, R, R, R, R, R, R, R, R, R)
+	case 6:
+		return fmt.Sprintf(`function pcB%d() { var c = pcB%d.caller; return c === null ? 'null' : (c && c.name) + ':' + typeof c; } var pcb = pcB%d.bind(null, %d); function pcBC%d() { return pcb(); } pcBC%d() + '|' + pcb()`, R, R, R, k, R, R)
+	case 7:
+		return fmt.Sprintf(`var pco = {tag: %d, get v() { var me = Object.getOwnPropertyDescriptor(pco, 'v').get; return typeof me.caller + ':' + (me.caller === pcG%d) + ':' + this.tag; }}; function pcG%d() { return pco.v; } pcG%d() + '|' + pco.v`, R, R, R, R)
+	case 8:
+		return fmt.Sprintf(`var pcf = new Function('return arguments.callee.caller ? arguments.callee.caller.name : String(arguments.callee.caller)'); function pcN%d() { return pcf(); } pcN%d() + '|' + pcf()`, R, R)
+	case 9:
+		return fmt.Sprintf(`function c1_%d() { return c2_%d(); } function c2_%d() { return c3_%d(); } function c3_%d() { var s = [], f = c3_%d, i = 0; while (f && i++ < 5) { s.push(f.name); f = f.caller; } return s.join('<'); } c1_%d()`, R, R, R, R, R, R, R)
+	case 10:
+		return fmt.Sprintf(`function pcRec%d(n) { yield(); return n ? pcRec%d(n - 1) : (pcRec%d.caller === pcRec%d) + ':' + pcRec%d.caller.name; } pcRec%d(%d) + '|' + callerCensus()`, R, R, R, R, R, R, k+1)
+	default:
+		return fmt.Sprintf(`var made = []; for (var i = 0; i < %d; i++) made.push(function pcM(x) { return pcM.caller === pcUse%d ? x : -x; }); function pcUse%d() { var t = 0; for (var i = 0; i < made.length; i++) t += made[i](i + %d); return t; } pcUse%d() + ':' + callerCensus()`, k+2, R, R, R, R)
+	}
+}
+
+// programs whose function literals have their own vars and nested function declarations that
+// matter (hoisting, two closures over one local, recursion through a nested declaration): run again and
+// again from one shared Program/Script, every run must behave like the first
+func (g *gen) nested(R int) string {
+	k := g.r.Intn(5)
+	switch g.r.Intn(8) {
+	case 0, 1:
+		return `(function () { function mk() { var n = 0; function bump() { n++; return n; } function get() { return n; } return {bump: bump, get: get}; } var a = mk(), b = mk(); a.bump(); a.bump(); b.bump(); return [a.get(), b.get(), typeof n, typeof bump].join(); })()`
+	case 2:
+		return fmt.Sprintf(`function fact(k) { var r = 1; function go(i) { if (i > k) return; r *= i; go(i + 1); } go(1); return r; } [fact(5), fact(%d), typeof r, typeof go].join()`, R%6+k+1)
+	case 3:
+		return `var g1 = 'G'; var f = function () { var g1 = 'L'; var h = function () { var g1 = 'LL'; return g1; }; return g1 + h(); }; f() + g1`
+	case 4:
+		return `function outerH() { return innerH() + typeof later + typeof innerH; function innerH() { return 'in'; } var later = 1; } outerH() + typeof later + typeof innerH`
+	case 5:
+		return fmt.Sprintf(`function mkAll() { var fs = []; for (var i = 0; i < 3; i++) { fs.push((function (j) { var k = j * %d; return function () { return k + j; }; })(i)); } return fs; } mkAll().map(function (f) { return f(); }).join() + typeof i + typeof k + typeof fs`, R+k)
+	case 6:
+		return fmt.Sprintf(`var o = {get p() { var t = %d; function d() { return t * 2; } return d(); }, set p(v) { var w = v; this._w = (function () { var z = w + 1; return z; })(); }}; o.p = %d; o.p + ':' + o._w + typeof t + typeof d + typeof w + typeof z`, R, k)
+	default:
+		return fmt.Sprintf(`function counter() { var c = 0; function inc() { return ++c; } return inc; } var c1 = counter(), c2 = counter(); c1(); c1(); c2(); try { undefinedAfterHoist(); } catch (e) { var en = e.name; } [c1(), c2(), typeof c, typeof inc, en, %d].join()`, R)
+	}
+}
+
 // a family job: root template with Interrupt and all settings configured before it is copied;
 // members that keep what Copy gave them, members that configure their own afterwards, copies of copies
 func (g *gen) familyJob() Job {
@@ -574,9 +638,12 @@ func (g *gen) familyJob() Job {
 		m := Member{Parent: -1, Trace: -1, Random: -1}
 		if i == 0 {
 			m.OwnInt = r.Intn(6) != 0
-			m.Halt = []int{0}
-			if r.Intn(3) == 0 {
-				m.Halt = append(m.Halt, 2)
+			if r.Intn(2) == 0 {
+				// a root without pending halts runs CONCURRENTLY with its copies; with one it runs last
+				m.Halt = []int{0}
+				if r.Intn(3) == 0 {
+					m.Halt = append(m.Halt, 2)
+				}
 			}
 			m.Stack = 60 + r.Intn(200)
 			m.Trace = Pick(r, []int{0, 1, 5, 10, 25, 40})
@@ -612,13 +679,17 @@ func (g *gen) familyJob() Job {
 		np := 3 + r.Intn(6)
 		var ps []string
 		for k := 0; k < np; k++ {
-			switch r.Intn(6) {
+			switch r.Intn(9) {
 			case 0, 1:
 				ps = append(ps, `settingsProbe()`)
 			case 2:
 				ps = append(ps, g.stateful(i+1))
 			case 3, 4:
 				ps = append(ps, g.shaped(i+1))
+			case 5, 6:
+				ps = append(ps, g.postcopy(i+1))
+			case 7:
+				ps = append(ps, g.nested(i+1))
 			default:
 				ps = append(ps, g.generic(i+1))
 			}
@@ -650,13 +721,17 @@ func (g *gen) job(idx int) Job {
 		np := 3 + r.Intn(6)
 		for i := 0; i < np; i++ {
 			// a shared program cannot mention the runtime tag: it is the same text for all
-			switch r.Intn(3) {
+			switch r.Intn(6) {
 			case 0:
 				pool = append(pool, g.generic(7))
 			case 1:
 				pool = append(pool, g.stateful(7))
-			default:
+			case 2:
 				pool = append(pool, g.shaped(7))
+			case 3:
+				pool = append(pool, g.postcopy(7))
+			default:
+				pool = append(pool, g.nested(7))
 			}
 		}
 	}
@@ -667,10 +742,14 @@ func (g *gen) job(idx int) Job {
 			switch {
 			case sharing != 0 && r.Intn(4) != 0:
 				ps = append(ps, Pick(r, pool))
-			case r.Intn(3) == 0:
+			case r.Intn(4) == 0:
 				ps = append(ps, g.stateful(rt+1))
-			case r.Intn(2) == 0:
+			case r.Intn(3) == 0:
 				ps = append(ps, g.shaped(rt+1))
+			case r.Intn(2) == 0:
+				ps = append(ps, g.postcopy(rt+1))
+			case r.Intn(4) == 0:
+				ps = append(ps, g.nested(rt+1))
 			default:
 				ps = append(ps, g.generic(rt+1))
 			}
@@ -678,6 +757,22 @@ func (g *gen) job(idx int) Job {
 		ps = append(ps, probeJS)
 		j.Progs = append(j.Progs, ps)
 		j.Yield = append(j.Yield, r.Intn(4))
+	}
+	if mode/3 != 0 && r.Intn(3) != 0 {
+		// the template goes on working after it has been copied (tag 0)
+		nt := 2 + r.Intn(5)
+		for i := 0; i < nt; i++ {
+			switch {
+			case sharing != 0 && r.Intn(3) == 0:
+				j.TProgs = append(j.TProgs, Pick(r, pool))
+			case r.Intn(3) == 0:
+				j.TProgs = append(j.TProgs, g.postcopy(0))
+			case r.Intn(2) == 0:
+				j.TProgs = append(j.TProgs, g.stateful(0))
+			default:
+				j.TProgs = append(j.TProgs, g.shaped(0))
+			}
+		}
 	}
 	return j
 }
@@ -700,8 +795,11 @@ func pinnedJobs() []Job {
 				for i := 0; i < 4; i++ {
 					ps = append(ps, fmt.Sprintf(`callBound('p%d_%d')`, R, i))
 				}
+				ps = append(ps,
+					fmt.Sprintf(`function pcOuter%d() { return pcInner%d(); } function pcInner%d() { var c = pcInner%d.caller; return (c === pcOuter%d) + ':' + (c ? c.name : c); } pcOuter%d() + '|' + callerCensus()`, R, R, R, R, R, R),
+					fmt.Sprintf(`function pcF%d() {} var g = Object.getOwnPropertyDescriptor(pcF%d, 'caller').get; g['mk%d'] = %d; Object.getOwnPropertyNames(g).sort().join() + ':' + callerCensus()`, R, R, R, R))
 			} else {
-				shared := `function w(n){ var o={}, a=[]; for(var i=0;i<n;i++){ o['k'+i]=i; a.push(function(){ return i }); } try { null.x } catch(e) { o.e=e.name } var r=/k(\d)/g, s=''; keysIn(o).replace(r,function(m,d){ s+=d }); return s+a.length+o.e+[3,1,2].sort().join()+JSON.stringify({a:[1,{b:2}]})+new Date(0).toISOString()+(1.5).toFixed(1)+'A'.toLowerCase() } glob += 1; T.counter.inc(); w(12) + glob + T.counter.get()`
+				shared := `function mkc(){ var n=0; function bump(){ n++; return n } function get(){ return n } return {bump:bump,get:get} } var pa=mkc(), pb=mkc(); pa.bump(); pa.bump(); pb.bump(); function hoist(){ return inner()+typeof later; function inner(){ return 'in' } var later=1 } var pre=[pa.get(),pb.get(),typeof n,typeof bump,hoist(),typeof inner].join()+'#'; function w(n){ var o={}, a=[]; for(var i=0;i<n;i++){ o['k'+i]=i; a.push(function(){ return i }); } try { null.x } catch(e) { o.e=e.name } var r=/k(\d)/g, s=''; keysIn(o).replace(r,function(m,d){ s+=d }); return s+a.length+o.e+[3,1,2].sort().join()+JSON.stringify({a:[1,{b:2}]})+new Date(0).toISOString()+(1.5).toFixed(1)+'A'.toLowerCase() } glob += 1; T.counter.inc(); pre + w(12) + glob + T.counter.get()`
 				for i := 0; i < 8; i++ {
 					ps = append(ps, shared)
 				}
@@ -709,6 +807,9 @@ func pinnedJobs() []Job {
 			ps = append(ps, probeJS)
 			j.Progs = append(j.Progs, ps)
 			j.Yield = append(j.Yield, rt%3)
+		}
+		if mode/3 == 1 {
+			j.TProgs = []string{`function tOuter() { return tInner(); } function tInner() { return (tInner.caller === tOuter) + ':' + callerCensus(); } tOuter()`, `callBound('t')`, `sweep('t')`, `glob += 100; T.counter.inc(); tOuter() + glob`}
 		}
 		js = append(js, j)
 	}
@@ -722,7 +823,8 @@ func pinnedJobs() []Job {
 		{Parent: 3, Trace: -1, Random: -1},
 	}}
 	for rt := range fam.Family {
-		ps := []string{`glob += 1; for (var i = 0; i < 10; i++) { glob++; } glob`, `settingsProbe()`, fmt.Sprintf(`callBound('f%d')`, rt), `settingsProbe()`, probeJS}
+		ps := []string{`glob += 1; for (var i = 0; i < 10; i++) { glob++; } glob`, `settingsProbe()`, fmt.Sprintf(`callBound('f%d')`, rt),
+			fmt.Sprintf(`function fo%d() { return fi%d(); } function fi%d() { return (fi%d.caller === fo%d) + ':' + callerCensus(); } fo%d()`, rt, rt, rt, rt, rt, rt), `settingsProbe()`, probeJS}
 		fam.Progs = append(fam.Progs, ps)
 		fam.Yield = append(fam.Yield, rt%3)
 	}
@@ -865,9 +967,20 @@ func runFamily(idx int, j Job) JobResult {
 			runMember(vms[rt], j.Family[rt], rt, j.Progs[rt], j.Yield[rt], false, &per[rt])
 		}(rt)
 	}
+	rootConcurrent := !(j.Family[0].OwnInt && len(j.Family[0].Halt) > 0)
+	if rootConcurrent {
+		wg.Add(1)
+		go func() {
+			defer wg.Done()
+			<-start
+			runMember(vms[0], j.Family[0], 0, j.Progs[0], j.Yield[0], false, &per[0])
+		}()
+	}
 	close(start)
 	wg.Wait()
-	runMember(vms[0], j.Family[0], 0, j.Progs[0], 0, rootHalted, &per[0])
+	if !rootConcurrent {
+		runMember(vms[0], j.Family[0], 0, j.Progs[0], 0, rootHalted, &per[0])
+	}
 	for _, evs := range per {
 		res.Conc = append(res.Conc, evs...)
 	}
@@ -972,7 +1085,13 @@ func runJob(idx int, j Job) JobResult {
 		for rt := 0; rt < n; rt++ {
 			_ = t.Copy()
 		}
-		res.Seq = append(res.Seq, []string{resultText(RunJS(t, probeJS))})
+		var evs []Ev
+		runList(t, nil, n, append(append([]string{}, j.TProgs...), probeJS), 0, &evs)
+		tr := make([]string, len(evs))
+		for i, e := range evs {
+			tr[i] = e.Res
+		}
+		res.Seq = append(res.Seq, tr)
 	}
 	// --- all runtimes together
 	sh := compileShared(j)
@@ -1004,13 +1123,27 @@ func runJob(idx int, j Job) JobResult {
 			runList(vm, sh, rt, j.Progs[rt], j.Yield[rt], &per[rt])
 		}(rt)
 	}
+	var tevs []Ev
+	if origin == 1 && len(j.TProgs) > 0 {
+		// the copies exist: the template works concurrently with them
+		wg.Add(1)
+		go func() {
+			defer wg.Done()
+			<-start
+			runList(template, sh, n, j.TProgs, 1, &tevs)
+		}()
+	}
 	close(start)
 	wg.Wait()
 	for _, evs := range per {
 		res.Conc = append(res.Conc, evs...)
 	}
 	if origin != 0 {
-		res.Conc = append(res.Conc, Ev{Rt: n, Res: resultText(RunJS(template, probeJS)), Ts: time.Now().UnixNano()})
+		if origin == 2 {
+			runList(template, sh, n, j.TProgs, 0, &tevs)
+		}
+		runList(template, nil, n, []string{probeJS}, 0, &tevs)
+		res.Conc = append(res.Conc, tevs...)
 	}
 	sort.SliceStable(res.Conc, func(a, b int) bool { return res.Conc[a].Ts < res.Conc[b].Ts })
 	return res
@@ -1220,6 +1353,10 @@ func main() {
 		if len(j.Family) > 0 {
 			fb, _ := json.Marshal(j.Family)
 			desc += " family=" + string(fb)
+		}
+		if len(j.TProgs) > 0 {
+			tb, _ := json.Marshal(j.TProgs)
+			desc += " template-programs=" + string(tb)
 		}
 		if j.Pin != "" {
 			desc = "pinned " + desc
